@@ -3,6 +3,10 @@
 import json, subprocess, sys
 
 CHECKS = {
+ "C04": dict(cat="exploration", tech="differential monitors: library XML/JSON documents judged by four independent parsers and interpreted by the harness's own TTLV-XML/JSON readers against the reference layout; OASIS vectors and variations pushed through the library and compared semantically",
+   text="A: 8k/270k generated messages + exhaustive scalar ladders (every enumeration value, mask classes incl. 0/unnamed/bit 31, ±2^52, control and markup characters, date edges) are encoded to XML and JSON; encoding/xml, encoding/json (all) and expat, Python json (sample/all) must accept them, the harness's own readers must extract exactly the reference tree, and the library must decode them to a message with byte-identical binary encoding. B: all 5318 vector messages (5176 of implemented operations) are read by the harness's reader, pushed through UnmarshalXML/MarshalXML, and the output must be the same tree (names vs numbers, hex vs decimal, instants compared semantically); 6k/200k value variations and corpus-derived optional-element removals likewise (rejections of the latter are counted, not judged).",
+   note="xtree is an independent reading of the XML/JSON profile by the same author; optionality is inferred from the corpus per (operation, status, attribute, key format, credential type) context. TZ=UTC.", ref="§2 C04"),
+
  "C18": dict(cat="exploration", tech="fixed-point monitor over every input accepted during the hostile corpus and over crafted non-canonical forms: enc(dec(x)) must decode and re-encode byte-identically, same encoding and cross encoding",
    text="~200k (quick) / ~4M (thorough) fixed-point checks on inputs the decoders ACCEPT (mostly non-canonical: the C02 corpus plus non-zero padding, over-long/odd big integers, unknown trailing, skipped and reordered fields, alternative JSON/XML lexical forms, OASIS vectors and variants): the re-encoding must be readable and a second re-encoding byte-identical, in the same encoding and in each other encoding where the harness-computed representability predicate (UTF-8 / XML Char / years 1..9999) holds.",
    note="Only the fixed point is required, not value preservation of non-canonical forms. TZ=UTC.", ref="§2 C18"),
